@@ -17,7 +17,9 @@ Monitor: the property statement on what is externally observable (connect attemp
 outcomes, requests reaching the scripted servers), using the tracing only to know which endpoint a call was routed
 to and which connect belongs to which sink instance.
 """
+import json
 import logging
+import os
 import sys
 
 from .. import common as C
@@ -81,7 +83,9 @@ def setup():
     sys.path.insert(0, C.REPO)
   import scales
   assert scales.__file__.startswith(C.REPO), scales.__file__
-  from harness import c09_world
+  from harness import c09_world, vworld
+  vworld.install()
+  c09_world.install_hooks()
   _S['world'] = c09_world
 
 
@@ -217,11 +221,53 @@ def search_cases(tier, seed, diverging):
 # ---------------------------------------------------------------------------------------------
 # implementation run
 # ---------------------------------------------------------------------------------------------
-def run_impl(case):
-  setup()
+def _run_here(case):
   tr = _S['world'].run(case)
   return {'log': tr['log'], 'calls': tr['calls'], 'servers': tr['servers'], 'crashes': tr['crashes'], 'now': tr['now'],
           'closed_at': tr.get('closed_at'), 'built_at': tr.get('built_at')}
+
+
+def run_impl(case):
+  """Every scenario runs in a forked child of a process that never runs scenarios itself: greenlets, timers and garbage
+  left behind by one scenario (a whole client with its loops) cannot act in the world of the next one, and a replay of a
+  single case sees exactly what the case saw inside a batch."""
+  setup()
+  if os.environ.get('C09_NOFORK'):
+    return _run_here(case)
+  r, w = os.pipe()
+  pid = os.fork()
+  if pid == 0:
+    code = 0
+    try:
+      os.close(r)
+      try:
+        import gevent
+        gevent.reinit()
+      except Exception:
+        pass
+      try:
+        data = json.dumps(_run_here(case))
+      except BaseException as e:
+        import traceback
+        data = json.dumps({'harness_exc': '%s: %s' % (type(e).__name__, e), 'tb': traceback.format_exc()[-1500:]})
+      with os.fdopen(w, 'wb') as f:
+        f.write(data.encode())
+    except BaseException:
+      code = 1
+    finally:
+      os._exit(code)
+  os.close(w)
+  chunks = []
+  while True:
+    b = os.read(r, 1 << 20)
+    if not b:
+      break
+    chunks.append(b)
+  os.close(r)
+  os.waitpid(pid, 0)
+  if not chunks:
+    return {'harness_exc': 'scenario process died without a result'}
+  return json.loads(b''.join(chunks).decode())
 
 
 # ---------------------------------------------------------------------------------------------
@@ -334,7 +380,15 @@ def _episodes(it, log):
       # ... and by the end of that instant holds no other connection for this sink (dropping one pooled connection
       # after use while another one stays is ordinary pool shrinking, whatever the peer did to it unnoticed)
       held = [c for c, j in it.estab.items() if j <= end_i and it.conn_sid.get(c) == sid and not (c in it.closed and it.closed[c] <= end_i)]
-      if not held and not any(j > i and tt == t and ok and sd == sid for (j, tt, ok, sd) in it.connects):
+      # ... unless a caller was handed a connection error right then (the request that was using the connection)
+      told = False
+      for e in log[i + 1:end_i + 1]:
+        if e[2] in ('close', 'connect'):
+          break
+        if e[2] == 'call-done':
+          told = e[4] not in ('value', 'TimeoutError', 'FailedFastError')
+          break
+      if (not held or told) and not any(j > i and tt == t and ok and sd == sid for (j, tt, ok, sd) in it.connects):
         ev.append((i, 'F', t))
   for (i, t, ok, sid, gi) in it.opens:
     if sid >= 2:
@@ -452,7 +506,9 @@ def monitor(case, obs):
 
   # (2) retry spacing and (3) liveness of the retry loop, per instance and outage
   tick = 1.0
+  delays = dict((ep['port'], ep.get('connect_delay', 0)) for ep in cfg['endpoints'])
   for it in insts.values():
+    odur = delays.get(it.port, 0)     # a gap between attempts = the sleep + the time the failed attempt took
     ep_end = it.close_idx if it.close_idx is not None else end_idx
     if client_close is not None:
       ep_end = min(ep_end, client_close)
@@ -464,14 +520,14 @@ def monitor(case, obs):
       gaps = [marks[k + 1] - marks[k] for k in range(len(marks) - 1)]
       for k, g in enumerate(gaps):
         gs = g / 64.0
-        if gs > wmax + tick / 64.0:
+        if gs > wmax + (tick + odur) / 64.0:
           v.append(('retry-gap-above-max', 'endpoint %d: %.4f s between reconnection attempts at ticks %s and %s exceeds max %.1f s' % (
               it.port, gs, marks[k], marks[k + 1], wmax)))
         if gs < w0 - tick / 64.0:
           v.append(('retry-faster-than-initial', 'endpoint %d: only %.4f s between ticks %s and %s (initial interval %.1f s)' % (
               it.port, gs, marks[k], marks[k + 1], w0)))
         if k > 0:
-          if g < gaps[k - 1] - tick:
+          if g < gaps[k - 1] - tick - odur:
             v.append(('retry-gap-shrinks', 'endpoint %d: successive retry delays %.4f s then %.4f s (attempts at %s)' % (
                 it.port, gaps[k - 1] / 64.0, gs, marks[max(0, k - 1):k + 2])))
           elif w0 > 1 and expo > 1 and g < gaps[k - 1] + tick and gs < wmax - tick / 64.0:
@@ -479,7 +535,7 @@ def monitor(case, obs):
                 it.port, gaps[k - 1] / 64.0, gs, wmax, marks[max(0, k - 1):k + 2])))
       # liveness: after the start of the outage and after every failed attempt the next attempt comes within max
       still_down = ep['end_idx'] is None or ep['end_idx'] >= ep_end
-      if still_down and marks and end_time > marks[-1] + wmax * 64 + tick:
+      if still_down and marks and end_time > marks[-1] + wmax * 64 + tick + odur:
         v.append(('no-retry-within-max', 'endpoint %d: down since tick %s, last reconnection attempt at tick %s, none until tick %s '
                   '(max interval %.1f s = %d ticks, client not closed)' % (it.port, marks[0], marks[-1], end_time, wmax, wmax * 64)))
 
@@ -608,12 +664,21 @@ def instance_steps(case, obs):
         sid = s.get('sid')
       if sid is not None and sid in I['open_idx']:
         oi, ot = I['open_idx'][sid]
+        started = None
         for e in log[oi:]:
           if e[0] != ot:
             break
           if e[2] == 'connect' and e[3] == port:
-            s['conn'] = (e[4] == 'True')
+            started = (e[4] == 'True')
             break
+        if s['l'] == 'LOpen':
+          s['conn'] = started
+        elif not started:
+          s['conn'] = False        # unreachable at the start of the attempt (or no connect at all)
+        else:
+          # reachable at the start; throughout the attempt?
+          interrupted = any(e[2] == 'ep-down' and e[3] == port for e in log[oi:s['idx'] + 1])
+          s['conn'] = None if interrupted else True
   return insts
 
 
